@@ -60,6 +60,11 @@ class TLCResult:
 _cov_re = re.compile(r'^<(\w+) line (\d+), col \d+ to line \d+, col \d+ of module (\w+)>: (\d+):(\d+)')
 
 
+def pythonpath():
+    """PYTHONPATH for driver subprocesses: /verif first, then whatever the caller set (tools/eval_*: a scratch worktree evaluated with VERIF_REPO)."""
+    return VERIF + (os.pathsep + os.environ["PYTHONPATH"] if os.environ.get("PYTHONPATH") else "")
+
+
 def run_tlc(module, cfg, workdir=None, workers=None, timeout=600, simulate=None, depth=None, dump=None,
             dump_dot=None, coverage=False, env=None, extra=(), heap="6g", deadlock=None, seed=None,
             specs_dir=None, expect_violation=False, dfs=False):
